@@ -332,6 +332,93 @@ where
     compare("Mutator", flavour, a, b, r1.fingerprint(), r2.fingerprint())
 }
 
+// ---------------------------------------------------------------- zero-sized genomes
+
+/// A genome type without any data (a unit struct): whatever the operator does with it, the generator it was
+/// handed and the error it returns are still observable.
+#[derive(Clone, Debug, PartialEq, Eq)]
+struct Unit;
+
+struct ZMut {
+    fail: bool,
+    style: u8,
+}
+impl Mutator<Unit> for ZMut {
+    type Error = ProbeFail;
+    fn mutate<G: Rng + ?Sized>(&self, g: Unit, rng: &mut G) -> Result<Unit, ProbeFail> {
+        let _ = vh::rngs::draw_mix(rng, self.style);
+        if self.fail {
+            Err(ProbeFail(3))
+        } else {
+            Ok(g)
+        }
+    }
+}
+struct ZRec {
+    fail: bool,
+    style: u8,
+}
+impl Recombinator<[Unit; 2]> for ZRec {
+    type Output = Unit;
+    type Error = ProbeFail;
+    fn recombine<G: Rng + ?Sized>(&self, [a, _]: [Unit; 2], rng: &mut G) -> Result<Unit, ProbeFail> {
+        let _ = vh::rngs::draw_mix(rng, self.style.wrapping_add(3));
+        if self.fail {
+            Err(ProbeFail(4))
+        } else {
+            Ok(a)
+        }
+    }
+}
+macro_rules! dyn_mut_z {
+    ($e:ty;) => { (dyn DynMutator<Unit, $e>) };
+    ($e:ty; $($a:tt)+) => { (dyn DynMutator<Unit, $e> + $($a)+) };
+}
+macro_rules! dyn_rec_z {
+    ($e:ty;) => { (dyn DynRecombinator<[Unit; 2], $e, Output = Unit>) };
+    ($e:ty; $($a:tt)+) => { (dyn DynRecombinator<[Unit; 2], $e, Output = Unit> + $($a)+) };
+}
+macro_rules! dyn_op_z {
+    ($e:ty;) => { (dyn DynOperator<Unit, $e, Output = Unit>) };
+    ($e:ty; $($a:tt)+) => { (dyn DynOperator<Unit, $e, Output = Unit> + $($a)+) };
+}
+fn t_mut_z<M, S2>(erased: &S2, flavour: &str, env: &MutEnv<'_, M>) -> Result<(), Fail>
+where
+    M: Mutator<Unit>,
+    M::Error: std::fmt::Display,
+    S2: Mutator<Unit>,
+    S2::Error: ErrView,
+{
+    let (mut r1, mut r2) = (Counting::new(env.c.seed), Counting::new(env.c.seed));
+    let Ok(a) = guarded(|| env.concrete.mutate(Unit, &mut r1).map_err(|e| e.to_string())) else { return Ok(()) };
+    let b = match guarded(|| erased.mutate(Unit, &mut r2)) { Ok(b) => b, Err(p) => return Err(Fail::new("Mutator/erased-form-panics", format!("{flavour} (zero-sized genome): the concrete call returned {a:?} but the erased form panicked: {p}"))) };
+    compare("Mutator", &format!("{flavour} (zero-sized genome)"), a, b, r1.fingerprint(), r2.fingerprint())
+}
+fn t_rec_z<M, S2>(erased: &S2, flavour: &str, env: &MutEnv<'_, M>) -> Result<(), Fail>
+where
+    M: Recombinator<[Unit; 2], Output = Unit>,
+    M::Error: std::fmt::Display,
+    S2: Recombinator<[Unit; 2], Output = Unit>,
+    S2::Error: ErrView,
+{
+    let (mut r1, mut r2) = (Counting::new(env.c.seed), Counting::new(env.c.seed));
+    let Ok(a) = guarded(|| env.concrete.recombine([Unit, Unit], &mut r1).map_err(|e| e.to_string())) else { return Ok(()) };
+    let b = match guarded(|| erased.recombine([Unit, Unit], &mut r2)) { Ok(b) => b, Err(p) => return Err(Fail::new("Recombinator/erased-form-panics", format!("{flavour} (zero-sized genome): the concrete call returned {a:?} but the erased form panicked: {p}"))) };
+    compare("Recombinator", &format!("{flavour} (zero-sized genome)"), a, b, r1.fingerprint(), r2.fingerprint())
+}
+fn t_op_z<M, S2>(erased: &S2, flavour: &str, env: &MutEnv<'_, M>) -> Result<(), Fail>
+where
+    M: Operator<Unit, Output = Unit>,
+    M::Error: std::fmt::Display,
+    S2: Operator<Unit, Output = Unit>,
+    S2::Error: ErrView,
+{
+    let (mut r1, mut r2) = (Counting::new(env.c.seed), Counting::new(env.c.seed));
+    let Ok(a) = guarded(|| env.concrete.apply(Unit, &mut r1).map_err(|e| e.to_string())) else { return Ok(()) };
+    let b = match guarded(|| erased.apply(Unit, &mut r2)) { Ok(b) => b, Err(p) => return Err(Fail::new("Operator/erased-form-panics", format!("{flavour} (zero-sized genome): the concrete call returned {a:?} but the erased form panicked: {p}"))) };
+    compare("Operator", &format!("{flavour} (zero-sized genome)"), a, b, r1.fingerprint(), r2.fingerprint())
+}
+
 // ---------------------------------------------------------------- recombinators
 
 struct ProbeRec {
@@ -442,6 +529,22 @@ fn genome_oracle(c: &GenomeCase, probe: &mut Probe) -> Result<(), Fail> {
         let m = Mutate::new(WithRate::new(c.rate)).then(Mutate::new(ProbeMut { fail: c.fail, style: c.style }));
         let env = MutEnv { concrete: &m, c };
         autos!(dyn_op, BoxErr, Mutate::new(WithRate::new(c.rate)).then(Mutate::new(ProbeMut { fail: c.fail, style: c.style })), t_op_unnamed, &env, "Operator", "boxed");
+    }
+    // zero-sized genomes
+    {
+        let m = ZMut { fail: c.fail, style: c.style };
+        let env = MutEnv { concrete: &m, c };
+        both_errors!(dyn_mut_z, ProbeFail, ZMut { fail: c.fail, style: c.style }, t_mut_z, &env, "Mutator");
+    }
+    {
+        let m = ZRec { fail: c.fail, style: c.style };
+        let env = MutEnv { concrete: &m, c };
+        both_errors!(dyn_rec_z, ProbeFail, ZRec { fail: c.fail, style: c.style }, t_rec_z, &env, "Recombinator");
+    }
+    {
+        let m = Mutate::new(ZMut { fail: c.fail, style: c.style });
+        let env = MutEnv { concrete: &m, c };
+        both_errors!(dyn_op_z, ProbeFail, Mutate::new(ZMut { fail: c.fail, style: c.style }), t_op_z, &env, "Operator");
     }
     probe.nontrivial = !c.genome.is_empty();
     if c.genome.len() != c.other.len() {
